@@ -19,6 +19,9 @@ CLAIMS = {
          "Coq refutation theorems + reference-traversal oracle + exhaustive small-graph correspondence", "5 C10"),
  "C11": ("Loader as a state machine over load / write+invalidate / clear; full statement refuted by a machine-checked witness (cache hit returns a journal without its nested includes: known finding); partial theorems: ClearCache then load = fresh load, and an invalidated file is never served from cache, in every state. Every run compares the shared loader with a fresh loader after each load of random operation sequences.",
          "Trusted: as C10.", "Coq refutation + partial theorems + shared-vs-fresh differential correspondence", "5 C11"),
+ "C12": ("WorkspaceIndex bookkeeping modelled (all usage-count maps through one keyed counter map, decrementBy, payee templates); C12_counters proves for EVERY sequence of set/remove operations that each aggregated counter equals the pointwise sum over the files currently indexed (what a rebuild computes); the payee-template table is refuted (known finding). Every run drives WorkspaceIndex operation sequences against the model and, at workspace level, compares six view components (members, counters and lists, transaction index, template keys, declared sets, commodity formats) with a freshly initialised workspace after every update.",
+         "Trusted: Coq kernel+VM; UpdateFile / include-tree refresh are covered by the rebuild oracle only, not modelled; known findings shared_payee_template and commodity_format_order.",
+         "Coq invariant proof over all operation sequences + incremental-vs-rebuild differential oracle", "5 C12"),
  "C13": ("Publish machine at publish-point granularity; C13_statement proved for all traces, all completion orders and all diagnostics functions on the guarded machine (the code after the fix commit); the unguarded machine is refuted. The tie enumerates every release permutation of bursts of 2..4 changes on two documents and random interleaved traces through a publish-point hook.",
          "Trusted: Coq kernel+VM; the hook; serialisation by publishMu read from the code; Go scheduler/memory model not modelled (orders finer than the publish point).",
          "Coq invariant proof over all traces + exhaustive small-burst schedule enumeration against the implementation", "5 C13"),
